@@ -342,9 +342,48 @@ func sanitize(v interface{}) interface{} {
 	return fmt.Sprintf("%T:%v", v, v)
 }
 
+// indepBattery: results that no package option is documented to influence (keys and values chosen so that
+// neither prefixes, separators, escaping nor casting apply); it must never change.
+func indepBattery() string {
+	var sb strings.Builder
+	m := mxj.Map{"r": map[string]interface{}{"l": []interface{}{map[string]interface{}{"b": "x", "c": "y"}, map[string]interface{}{"b": "z"}}, "q": map[string]interface{}{"b": "w"}, "t": "v"}}
+	n, err := m.NewMap("r.l:x.y", "r.q.b:z", "r.t")
+	fmt.Fprintf(&sb, "NM:%s|%v\n", canon(map[string]interface{}(n)), err)
+	p := m.PathsForKey("b")
+	sort.Strings(p)
+	fmt.Fprintf(&sb, "PK:%v|%d\n", p, len(strings.Split(m.PathForKeyShortest("b"), ".")))
+	vk, err := m.ValuesForKey("b")
+	fmt.Fprintf(&sb, "VK:%v|%v\n", sortedCanon(vk), err)
+	vp, err := m.ValuesForPath("r.l.b")
+	fmt.Fprintf(&sb, "VP:%v|%v\n", vp, err)
+	vi, err := m.ValuesForPath("r.l[1].b")
+	fmt.Fprintf(&sb, "VI:%v|%v\n", vi, err)
+	ex, err := m.Exists("r.q.b")
+	fmt.Fprintf(&sb, "EX:%v|%v\n", ex, err)
+	c1 := mxj.Map(copyMap(m))
+	e1 := c1.RenameKey("r.q", "renamed")
+	e2 := c1.Remove("r.t")
+	e3 := c1.SetValueForPath("set", "r.l.new")
+	cnt, e4 := c1.UpdateValuesForPath(map[string]interface{}{"b": "U"}, "r.l.b")
+	fmt.Fprintf(&sb, "MUT:%s|%v %v %v %d %v\n", canon(map[string]interface{}(c1)), e1, e2, e3, cnt, e4)
+	cp, err := m.Copy()
+	fmt.Fprintf(&sb, "CP:%s|%v\n", canon(map[string]interface{}(cp)), err)
+	g, err := m.Gob()
+	gm, err2 := mxj.NewMapGob(g)
+	fmt.Fprintf(&sb, "GOB:%s|%v %v\n", canon(map[string]interface{}(gm)), err, err2)
+	lv := m.LeafValues()
+	fmt.Fprintf(&sb, "LV:%v\n", sortedCanon(lv))
+	r, err := m.Root()
+	fmt.Fprintf(&sb, "ROOT:%s|%v\n", r, err)
+	si := m.StringIndent()
+	fmt.Fprintf(&sb, "SI:%s\n", si)
+	return sb.String()
+}
+
 var (
 	baseOnce    sync.Once
 	baseBattery string
+	baseIndep   string
 )
 
 var restoreSteps = []func(){
@@ -565,7 +604,7 @@ func checkC18(c CaseC18, info *Info) *Failure {
 	if d := diffState(mxj.VerifOptionState(), m.hookState()); d != "" {
 		return failf("harness-state-leak", "options not at their defaults at the start of the case: %s", d)
 	}
-	baseOnce.Do(func() { baseBattery = battery() })
+	baseOnce.Do(func() { baseBattery = battery(); baseIndep = indepBattery() })
 	names := map[string]bool{}
 	toggles, escBoth, kpChanges := 0, map[string]bool{}, 0
 	for i, call := range c.Calls {
@@ -586,6 +625,9 @@ func checkC18(c CaseC18, info *Info) *Failure {
 		if f := m.predictions(); f != nil {
 			f.Msg = fmt.Sprintf("after call %d of %+v: %s", i, c.Calls[:i+1], f.Msg)
 			return f
+		}
+		if ib := indepBattery(); ib != baseIndep {
+			return failf("option-affects-unrelated-behaviour", "after call %d of %+v a result that no option documents to influence changed:\n%s\n--- with default options:\n%s", i, c.Calls[:i+1], ib, baseIndep)
 		}
 		if d := diffState(mxj.VerifOptionState(), m.hookState()); d != "" {
 			return failf("harness-state-leak", "the prediction battery changed the options: %s", d)
